@@ -91,12 +91,12 @@ def dyn_cfg(name, dyn=True, amev=False, heights=3):
 # C16 at design level: a single-validator network against a clock (spec/MC_Dyn.tla)
 DYN_FAMILIES = [dyn_cfg('dyn-on'), dyn_cfg('dyn-off', dyn=False), dyn_cfg('dyn-on-amev', amev=True), dyn_cfg('dyn-on-long', heights=5)]
 
-def live_cfg(name, n=4, silent=(2,), cutsets=(), heal=0, amev=False, maxview=3):
+def live_cfg(name, n=4, silent=(2,), cutsets=(), heal=0, amev=False, maxview=3, anytime=False, restart=()):
     b = lambda v: 'TRUE' if v else 'FALSE'
     st = lambda xs: '{' + ', '.join(str(x) for x in xs) + '}'
-    txt = ('SPECIFICATION Spec\nCONSTANTS\n  N = %d\n  H = 2\n  Silent = %s\n  CutSets = {%s}\n  HealAfter = %d\n  AmevOn = %s\n  MaxView = %d\n  Emit = FALSE\n  CoverMod = 1\n'
+    txt = ('SPECIFICATION Spec\nCONSTANTS\n  N = %d\n  H = 2\n  Silent = %s\n  CutSets = {%s}\n  CutAnyTime = %s\n  HealAfter = %d\n  RestartSet = %s\n  AmevOn = %s\n  MaxView = %d\n  Emit = FALSE\n  CoverMod = 1\n'
            'CONSTRAINT Bound\nINVARIANTS Agreement ViewBound TimersArmed\nPROPERTY Termination\nCHECK_DEADLOCK FALSE\n'
-           % (n, st(silent), ', '.join(st(c) for c in cutsets), heal, b(amev), maxview))
+           % (n, st(silent), ', '.join(st(c) for c in cutsets), b(anytime), heal, st(restart), b(amev), maxview))
     return dict(name=name, module='MC_Live', cfg=txt)
 
 # C09 at design level: closed synchronous composition with silent / cut-off validators, liveness under fairness (spec/MC_Live.tla)
@@ -104,13 +104,18 @@ LIVE_FAMILIES = [live_cfg('live-silent-primary', silent=(2,)), live_cfg('live-si
                  live_cfg('live-silent-primary-amev', silent=(2,), amev=True),
                  live_cfg('live-silent-primary-cut1', silent=(2,), cutsets=((1,),), heal=2, maxview=4),
                  live_cfg('live-silent-primary-cutany', silent=(2,), cutsets=((1,), (3,), (0,)), heal=1, maxview=4),
-                 live_cfg('live-n7-silent1', n=7, silent=(2,), maxview=2)]
+                 live_cfg('live-silent-primary-restart', silent=(2,), restart=(1,), maxview=4),
+                 live_cfg('live-cut-backup', silent=(), cutsets=((1,),), heal=1),
+
+                 ]
 
 def run_tlc(item, wd, workers=4, cap=1800, simulate=None, cover=0):
     sd = os.path.join(wd, 'mc-' + item['name']); os.makedirs(sd, exist_ok=True)
     for f in ['DbftNode.tla', item['module'] + '.tla'] + (['MC_Node.tla'] if item['module'] == 'MC_NodeCover' else []):
         shutil.copy(os.path.join(vlib.VERIF, 'spec', f), sd)
     cfg = item['cfg'] if (simulate and not simulate.get('dump')) else item['cfg'].replace('Emit = FALSE', 'Emit = TRUE')   # carry the schedule (hidden by VIEW)
+    if item['module'] == 'MC_Live' and not cover:
+        cfg = item['cfg']     # temporal property: no VIEW, so the schedule must not be part of the state
     if cover and item['module'] == 'MC_Live':
         cfg = cfg.replace('PROPERTY Termination\n', 'VIEW View\n')     # the schedule must not split states; no temporal property in this run
     if cover:   # print the stored schedule of every state (EmitCover)
